@@ -217,6 +217,10 @@ def run(ck):
               "%s installs the message handler before the pipeline is built: messages of other threads are accepted by a logger whose handler list is being appended to without the lock, "
               "and miss the sinks that the same call creates a moment later" % f_.name.split("QtLogger::")[-1], key="install-before-configure|%s" % f_.sig.split("QtLogger::")[-1][:60])
     ck.require(n13 >= 2, "only %d Logger methods configure and install (2 confirmed by hand)" % n13)
+    ck.rule("C02-O14", "a sequence number is drawn while the message is inside the pipeline (under the lock that orders the messages): SeqNumberAttr::attributes() advances the handler's own counter "
+                       "once per call and publishes it - a number drawn earlier (when the record is created) orders the messages by creation, not by the order the sinks see them")
+    from rules.c16 import seq
+    seq(ck, "C02-O14")
     ck.rule("C02-O9", "handler code keeps no mutable static state: every static variable written by code reachable from a handler's process/format/filter/send/attributes/flush is a cache of constants "
                       "(the pipeline's lock covers the pipeline's own objects, not what all pipelines share)")
     from rules.oth import shared_static_state
